@@ -84,6 +84,9 @@ def _replay(job, phase):
     z = m.rvar(2)
     t = m.dvar(K)
     m.st(t >= -10)          # constraints not (yet) in the model leave their epigraph variable at -10
+    sw = m.dvar()           # decision of the late row s*w <= 1 (w: a random variable declared late)
+    m.st(sw >= 0, sw <= 10)
+    w_late = None
     user_a = {k: A[k].copy() for k in A}
     user_a_bytes = {k: user_a[k].tobytes() for k in user_a}
     cons = {k: (t[k - 1] >= user_a[k] @ z) for k in range(1, K + 1)}
@@ -111,7 +114,7 @@ def _replay(job, phase):
                 m.st(cons[args[0]])
             elif act == 'obj':
                 kind, S = args
-                o = t.sum() if K > 1 else t[0] + 0
+                o = (t.sum() if K > 1 else t[0] + 0) - sw
                 if kind == 'min':
                     m.min(o)
                 else:
@@ -138,6 +141,10 @@ def _replay(job, phase):
                     m.soc_solve(eco_solver, display=False)
                 if fbefore is not None and formula_sig(m.do_math()) != fbefore:
                     finding('C19', 'C19:formula-mutated-by-%s' % act, 'the cached standard form differs after %s()' % act)
+            elif act == 'late_rvar':
+                w_late = m.rvar()
+            elif act == 'late_row':
+                m.st(sw * w_late <= 1)
             elif act == 'm2_st':
                 m2_st += 1
                 m2.st(x2 >= (z2[0] if m2_st == 1 else 2 * z2[1]))
@@ -184,17 +191,22 @@ def _replay(job, phase):
             else:
                 finding('C17', 'C17:error-expected:%s' % act, 'step %d %s should raise' % (si, act))
         if expect == 'ok' and raised is not None:
-            owner = 'C09' if act in ('solve', 'soc_solve', 'do_math', 'do_math_dual', 'st', 'forall', 'obj', 'mk') else 'C17'
+            owner = 'C09' if act in ('solve', 'soc_solve', 'do_math', 'do_math_dual', 'st', 'forall', 'obj', 'mk', 'late_rvar', 'late_row') else 'C17'
             finding(owner, '%s:unexpected-exception:%s:%s' % (owner, act, raised.split(':')[0]), 'step %d %s raised %s' % (si, act, raised))
             break
         # ---- values after a successful solve
         if act in ('solve', 'soc_solve') and raised is None and expect == 'ok':
-            decls = args
+            decls = args['decls']
             ok = m.solution is not None and not (isinstance(m.solution.objval, float) and math.isnan(m.solution.objval))
             if not ok:
                 finding('C09', 'C09:solve-failed:%s' % act, 'step %d: %s reported no solution for a model every part of which solves alone' % (si, act))
                 break
             tv = np.array(t.get(), dtype=float).reshape(-1)
+            want_s = 0.0 if args['wrow'] else 10.0
+            got_s = float(np.array(sw.get()).reshape(-1)[0])
+            if abs(got_s - want_s) > 1e-4:
+                finding('C09', 'C09:late-random-variable-unprotected:%s' % ('row-ignored' if got_s > want_s else 'other'),
+                        'row s*w <= 1 on a random variable declared after the default set was captured: s = %.6g, expected %.6g (w is constrained by no set)' % (got_s, want_s), step=si)
             total = 0.0
             for k in range(1, K + 1):
                 d = decls[k - 1]
